@@ -895,7 +895,11 @@ func sliceElementValues(v ssa.Value) []ssa.Value {
 		return vals
 	}
 	var out []ssa.Value
-	for _, r := range *v.Referrers() {
+	refs := v.Referrers()
+	if refs == nil {
+		return nil
+	}
+	for _, r := range *refs {
 		if ia, ok := r.(*ssa.IndexAddr); ok {
 			for _, r2 := range *ia.Referrers() {
 				if st, ok := r2.(*ssa.Store); ok && st.Addr == ia {
